@@ -100,6 +100,29 @@ class Ctx:
         self.traces_validated += len(literals) - len(bad)
         return bad
 
+    def finish_replay(self, data, path):
+        """Verdict of a --replay run: is the recorded failure (same tag, or the same broken obligation) still there?"""
+        from .. import known
+        known_lines = known.load(self.cid)
+        tag = data.get("tag")
+        again = [f for f in self.failures if known.match(known_lines, f) is None and (tag is None or f.get("tag") == tag)]
+        proof_broken = self.proof is not None and not self.proof.get("ok")
+        corr_broken = [c for c in self.corr if c["mismatches"] or c["shard_errors"]]
+        if data.get("kind") in ("proof", "correspondence"):
+            still = proof_broken or bool(corr_broken)
+            if still:
+                print("VIOLATION property=%s replay=%s no-failing-input-found" % (self.cid, path))
+                print("  still unproved: " + ("proof obligation" if proof_broken else "correspondence " + corr_broken[0]["name"]))
+            else:
+                print("%s replay: the obligation recorded in %s checks again on the current tree" % (self.cid, path))
+            return 1 if still else 0
+        if again:
+            print("VIOLATION property=%s replay=%s" % (self.cid, path))
+            print("  " + again[0]["what"])
+            return 1
+        print("%s replay: the failure recorded in %s (tag %r) does not occur on the current tree" % (self.cid, path, tag))
+        return 0
+
     # ---- verdict ----
     def finish(self):
         from .. import known
